@@ -358,7 +358,11 @@ def tmpdir():
     if _TMP.get('pid') != pid:
         base = '/dev/shm' if os.path.isdir('/dev/shm') and os.access(
             '/dev/shm', os.W_OK) else None
-        _TMP['dir'] = tempfile.mkdtemp(prefix='spowtd-verif-', dir=base)
+        # named after the process that started the run, which sweeps what
+        # terminated pool workers leave behind (mc.run)
+        _TMP['dir'] = tempfile.mkdtemp(
+            prefix='spowtd-verif-%s-' % os.environ.get(
+                'SPOWTD_VERIF_ROOT_PID', pid), dir=base)
         _TMP['pid'] = pid
         import atexit
         import multiprocessing.util
